@@ -140,7 +140,9 @@ func (is *c07Issuer) evalCase(c *h.Ctx, cat_ string, data []byte) (served bool) 
 }
 
 func runC07(c *h.Ctx) {
-	origins := []string{"origin.example", "b.example", "x", "dotted.example.", "Mixed.Example", " spaced.example"}
+	long40 := "a-registered-origin-name-of-forty-bytes." // 40 bytes: its first 32 bytes are one full padding block
+	long70 := "another-registered-origin-name-that-is-exactly-seventy-bytes-long.test"
+	origins := []string{"origin.example", "b.example", "x", "dotted.example.", "Mixed.Example", " spaced.example", long40, long70}
 	is := newC07Issuer(c, 0, origins)
 	other := newC07Issuer(c, 1, origins) // another issuer: other name key (and token key)
 	client := type3.NewRateLimitedClientFromSecret(rnd(c, 48))
@@ -262,7 +264,7 @@ func runC07(c *h.Ctx) {
 	// registered / unregistered origins, near misses
 	names := []string{"dotted.example.", "dotted.example", "dotted.example..", "Mixed.Example", "mixed.example", "MIXED.EXAMPLE", " spaced.example", "spaced.example",
 		"origin.example", "b.example", "x", "", "origin.exampl", "origin.example0", "origin.examplf", "\x00origin.example", "\x00\x00x", "origin.example\x00x", "Origin.example", "x\x00", "origin.example.", "y",
-		string(make([]byte, 31)), "xx"}
+		string(make([]byte, 31)), "xx", long40, long40[:32], long40[:39], long40 + "x", long70, long70[:64], long70[:32], long70[:69]}
 	for _, n := range names {
 		st, err := is.env.request(client, rnd(c, 20), rnd(c, 32), rnd(c, 48), n)
 		if err != nil {
@@ -310,6 +312,13 @@ func runC07(c *h.Ctx) {
 			encReq, err := craftType3(c, who, client, rnd(c, ptLen))
 			if err == nil {
 				who.evalCase(c, "inner:malformed-plaintext", encReq)
+			}
+			// a padded-origin field of length ZERO (no block at all) under a correct envelope
+			pt0 := cat([]byte{who.env.tokenKeyID[31]}, cat([]byte{0}, rnd(c, 255)), u16pfx(nil))
+			if encReq, err := craftType3(c, who, client, pt0); err == nil {
+				if who.evalCase(c, "inner:zero-length-padded-origin", encReq) && who == is {
+					c.Violation("a request whose padded origin field is empty is served by an issuer that did not register the empty origin", nil)
+				}
 			}
 			pt := cat([]byte{9}, rnd(c, 256), u16pfx(make([]byte, 32)))
 			if ptLen == 300 {
